@@ -373,8 +373,15 @@ func (sg *sqlGen) ensureComposite() string {
 	if rapid.IntRange(0, 1).Draw(t, "compUnexported") == 0 {
 		// an unexported integer field is an attribute of the composite type like the others
 		pos := rapid.IntRange(0, len(d.Fields)).Draw(t, "compUnexportedPos")
-		d.Fields = append(d.Fields[:pos], append([]*Field{{Name: "hidden", Type: Basic("int")}}, d.Fields[pos:]...)...)
-		sg.o.class("sql:composite_with_unexported_field")
+		hiddenType := "int"
+		if rapid.IntRange(0, 3).Draw(t, "compLookalike") == 0 {
+			// one unexported field that is not an integer: the struct is not a composite any more (stored as jsonb)
+			hiddenType = "string"
+			sg.o.class("sql:composite_lookalike_with_unexported_string")
+		} else {
+			sg.o.class("sql:composite_with_unexported_field")
+		}
+		d.Fields = append(d.Fields[:pos], append([]*Field{{Name: "hidden", Type: Basic(hiddenType)}}, d.Fields[pos:]...)...)
 	}
 	sg.other.Decls = append(sg.other.Decls, d)
 	return name
